@@ -70,6 +70,28 @@ def squash(seq):
     """drop whitespace and the virtual characters of the projection (markers, heading marks, cell bars)"""
     return [(c, k) for c, k in seq if not c.isspace() and c not in '*_#|']
 
+def region_d36(din):
+    """a story or a table whose raw text is non-empty while its accepted text is empty (everything in it is tracked-deleted)"""
+    def texts(bl):
+        raw = acc = ''
+        for b in bl:
+            if b['t'] == 'p':
+                at = A.atoms(b['nodes']); raw += A.text_of(at); acc += A.text_of(A.acc_atoms(at))
+            else:
+                r2 = a2 = ''
+                for r in b['rows']:
+                    for c in r:
+                        x, y = texts(c['blocks']); r2 += x; a2 += y
+                if r2.strip() and not a2.strip(): raise StopIteration
+                raw += r2; acc += a2
+        return raw, acc
+    try:
+        for s in din['stories']:
+            r, a = texts(s['blocks'])
+            if r.strip() and not a.strip(): return True
+    except StopIteration: return True
+    return False
+
 def oracle(d, b, raw, clean):
     feats = set(d.get('features', []))
     chars, text_ids, com_ids = visible_chars(b)
@@ -95,6 +117,7 @@ def oracle(d, b, raw, clean):
     if DELIMS.search(clean): return 'accepted view contains annotations', None
     if squash([(c, 'n') for c in clean]) != cexp: return 'accepted view does not show exactly the non-deleted visible characters', ('D13' if 'hyperlink' in feats else None)
     if acc != clean:
+        if region_d36(A.read(b)): return 'accept(raw) differs from the accepted view', 'D36'
         return 'reading the raw view with every annotation accepted differs from the accepted view: %s' % json.dumps(docrun.first_diff(clean, acc)), None
     for line in raw.split('\n'):
         ln = BLOCK.sub(lambda m: m.group(0) if m.group(4) is None else '', line)
@@ -128,7 +151,11 @@ def run(tier, seed):
         'character classes of the heading heuristic: tables compared with Python on the generator alphabet'])
     rng = random.Random(seed)
     n = 700 if tier == 'quick' else 15000
-    docs = targeted(rng) + [docgen.gen_doc(rng, 'full') for _ in range(n)]
+    fdocs = []
+    for fid, case in core.finding_cases('C04'):
+        d = dict(case['doc']); d.setdefault('features', []); d['features'] = list(d['features']) + ['finding:' + fid] + (['hyperlink'] if fid == 'D13' else []) + (['point_comment'] if fid == 'D11' else [])
+        fdocs.append(d)
+    docs = fdocs + targeted(rng) + [docgen.gen_doc(rng, 'full') for _ in range(n)]
     blobs = [A.build(d) for d in docs]
     with Pool(core.NPROC, initializer=docrun.impl_init) as pool:
         outs = pool.map(work, blobs, chunksize=16)
@@ -146,11 +173,13 @@ def run(tier, seed):
         raw, clean = res
         fail, known = oracle(d, b, raw, clean)
         if fail and known:
-            ck.known(known, {'D13': 'text inside w:hyperlink is not shown by the projection', 'D12': 'a vertically merged cell repeats the text of the cell above',
+            ck.known(known, {'D36': 'a story or table whose text is entirely tracked-deleted keeps its separator in the raw view but vanishes from the accepted view, so accept(raw) differs from the accepted view by that separator',
+                             'D13': 'text inside w:hyperlink is not shown by the projection', 'D12': 'a vertically merged cell repeats the text of the cell above',
                              'D11': 'point comments are not rendered'}[known])
         elif fail: ck.violation('oracle', dict(case, raw=raw, clean=clean), fail)
         if 'point_comment' in d['features'] and '[Com:' not in raw: ck.known('D11', 'point comments (range start immediately followed by its end) are not rendered')
-        for view, txt in ((0, raw), (1, clean)):
+        outside_model = any(f in ('vmerge', 'finding:D12') for f in d['features'])      # vMerge cell repetition is not modelled
+        for view, txt in (() if outside_model else ((0, raw), (1, clean))):
             mt = ''.join(core.dec(x.split(':')[0]) for x in mo[2 * k + view].split(';') if x)
             if mt != txt: ck.corr_broken.append(('Project.extract vs extract_text_from_stream (%s view)' % ('raw' if view == 0 else 'accepted'), dict(case, diff=docrun.first_diff(txt, mt))))
         if raw != clean: distinct.add(raw)
